@@ -262,4 +262,10 @@ def rule_reset_completeness(ctx):
             ctx.res.ok("O5.4", what, True)
 
 
-RULES = [rule_is_unique, rule_distinct_count, rule_only_accepted_rows, rule_reset_completeness]
+def rule_same_data_set_only(ctx):
+    """O5.5: 'an earlier row of the SAME data set' - every pass over a data set starts with reset checks (C08's histories)."""
+    ctx.res.minimum("O5.5", 1)
+    protocol.history_table(ctx, "O5.5", 3 if ctx.thorough else 2)
+
+
+RULES = [rule_is_unique, rule_distinct_count, rule_only_accepted_rows, rule_reset_completeness, rule_same_data_set_only]
